@@ -123,6 +123,8 @@ func (w *World) enumPaths(fn *ssa.Function, opts pathOpts, visit func(p *Path)) 
 	e.walkBlock(root, nil, start, nil, func(en *env, ret []Val) {
 		e.emit("return", ret, en)
 	})
+	w.statPaths += e.count
+	w.statPathFns++
 	return e.count, e.over
 }
 
